@@ -389,6 +389,10 @@ class C09(object):
                 got = outcome(lambda: af(*args, **kw).value())
                 if got != exp_async:
                     out.append(("get-async-fn", "%s %s: get_async_fn(x)(...).value() gave %r, expected %r" % (deco, binding, got, exp_async)))
+                afw = get_async_fn(x, wrap_if_none=True)  # the wrap_if_none spelling: x is async already
+                got = outcome(lambda: afw(*args, **kw).value())
+                if got != exp_async:
+                    out.append(("get-async-fn", "%s %s: get_async_fn(x, wrap_if_none=True)(...).value() gave %r, expected %r" % (deco, binding, got, exp_async)))
                 aos = get_async_or_sync_fn(x)
                 got = outcome(lambda: aos(*args, **kw).value())
                 if got != exp_async:
